@@ -4,7 +4,9 @@ import (
 	"bytes"
 	"errors"
 	"fmt"
+	"strings"
 	"testing"
+	"unsafe"
 
 	gots "github.com/Comcast/gots/v2"
 	"github.com/Comcast/gots/v2/packet"
@@ -40,6 +42,8 @@ func (o OpC03) String() string {
 		return fmt.Sprintf("%s(%d bytes)", o.Kind, len(o.Data))
 	case "tpdOwn", "extOwn":
 		return fmt.Sprintf("%s(window %#x)", o.Kind, o.V)
+	case "tpdStraddle", "extStraddle":
+		return fmt.Sprintf("%s(from value byte %d to %d bytes behind the packet)", o.Kind, o.V&0xFF, 1+(o.V>>8)%40)
 	}
 	return o.Kind
 }
@@ -53,7 +57,7 @@ const c03MaxPCR = uint64(1)<<33*300 - 1
 
 func genC03Op(t *rapid.T, a *ref.AF) OpC03 {
 	afLen := a.Len
-	kinds := []string{"disc", "ra", "esp", "hasPCR", "hasOPCR", "hasSplice", "hasTPD", "hasExt", "hasTPD", "hasExt", "pcr", "opcr", "splice", "tpd", "ext", "tpd", "ext", "copyAF", "copyOwnAF", "tpdOwn", "extOwn"}
+	kinds := []string{"disc", "ra", "esp", "hasPCR", "hasOPCR", "hasSplice", "hasTPD", "hasExt", "hasTPD", "hasExt", "pcr", "opcr", "splice", "tpd", "ext", "tpd", "ext", "copyAF", "copyOwnAF", "tpdOwn", "extOwn", "tpdStraddle", "extStraddle"}
 	o := OpC03{Kind: rapid.SampledFrom(kinds).Draw(t, "op")}
 	switch o.Kind {
 	case "disc", "ra", "esp", "hasPCR", "hasOPCR", "hasSplice", "hasTPD", "hasExt":
@@ -67,6 +71,10 @@ func genC03Op(t *rapid.T, a *ref.AF) OpC03 {
 	case "tpdOwn", "extOwn":
 		// a window of the field's current value, as the function-style getter returns it (a sub-slice of the packet), handed back to the setter
 		o.V = uint64(rapid.IntRange(0, 0x1FFFF).Draw(t, "own-window"))
+	case "tpdStraddle", "extStraddle":
+		// the packet is a view of a larger buffer and so is the argument: it starts inside the field's current value and ends
+		// 1..40 bytes behind the packet
+		o.V = uint64(rapid.IntRange(0, 0xFFFF).Draw(t, "straddle-window"))
 	case "tpd", "ext":
 		// room for this field's data given everything else currently in the model
 		other := a.Content()
@@ -204,6 +212,40 @@ func c03Window(v uint64, n int) (int, int) {
 	return lo, hi
 }
 
+// c03ArenaTail: bytes of the caller's buffer behind the packet under test.
+const c03ArenaTail = 64
+
+// c03FieldStart is the offset in the packet of the first value byte of the private data (or of the extension) and the
+// value's length, by the model; -1 when the field is absent.
+func c03FieldStart(a *ref.AF, ext bool) (int, int) {
+	if a == nil || a.Len == 0 {
+		return -1, 0
+	}
+	s := 6
+	if a.PCR != nil {
+		s += 6
+	}
+	if a.OPCR != nil {
+		s += 6
+	}
+	if a.Splice != nil {
+		s++
+	}
+	if !ext {
+		if a.TPD == nil {
+			return -1, 0
+		}
+		return s + 1, len(*a.TPD)
+	}
+	if a.Ext == nil {
+		return -1, 0
+	}
+	if a.TPD != nil {
+		s += 1 + len(*a.TPD)
+	}
+	return s + 1, len(*a.Ext)
+}
+
 // c03SourceEmpty reports whether the source packet of a copyAF op has adaptation_field_length 0.
 func c03SourceEmpty(o OpC03) bool { return len(o.Src) == 188 && o.Src[3]&0x20 != 0 && o.Src[4] == 0 }
 
@@ -331,6 +373,10 @@ func c03Apply(a *ref.AF, o OpC03) (na *ref.AF, wantErr bool, undefined string, s
 		}
 	case "copyOwnAF":
 		// the packet's own adaptation field handed back to it: every logical value stays what it is
+	case "tpdStraddle", "extStraddle":
+		// only the generator's running model comes here (the value depends on the packet's bytes, which the oracle reads
+		// off the packet and hands on as a "tpd" / "ext" step): it loses track of the value, which only affects its aim
+		return a, true, "", false
 	default:
 		panic("harness: unknown op " + o.Kind)
 	}
@@ -409,6 +455,17 @@ func c03Call(p *packet.Packet, o OpC03, model *ref.AF) error {
 			return af.SetTransportPrivateData(win)
 		}
 		return af.SetAdaptationFieldExtension(win)
+	case "tpdStraddle", "extStraddle":
+		start, n := c03FieldStart(model, o.Kind == "extStraddle")
+		if start < 0 {
+			return nil // field absent: the model makes no call either
+		}
+		arena := unsafe.Slice((*byte)(unsafe.Pointer(p)), 188+c03ArenaTail) // checkC03 keeps the packet at the start of such a buffer
+		arg := arena[start+int(o.V&0xFF)%(n+1) : 188+1+int(o.V>>8)%40]
+		if o.Kind == "tpdStraddle" {
+			return af.SetTransportPrivateData(arg)
+		}
+		return af.SetAdaptationFieldExtension(arg)
 	case "copyOwnAF":
 		own, err := p.AdaptationField()
 		if err != nil {
@@ -574,7 +631,15 @@ func checkC03(c CaseC03, x *hx.Ctx) *hx.Failure {
 	if !ok || m.AF == nil || m.AF.Len == 0 {
 		return hx.Failf("bad-case", "case packet must be well-formed with a non-empty adaptation field")
 	}
-	p := packet.Packet(b)
+	// the packet under test is a view of a larger buffer of the caller's
+	arena := make([]byte, 188+c03ArenaTail)
+	for i := 188; i < len(arena); i++ {
+		arena[i] = byte(0x5A + i)
+	}
+	tailKeep := clone(arena[188:])
+	pp := (*packet.Packet)(arena[:188])
+	*pp = packet.Packet(b)
+	p := pp
 	// a second packet with an adaptation field of its own (PCR + private data), and a live AdaptationField
 	// object for it, sit next to the packet under test: nothing done to one packet may show in another
 	byModel := &ref.Packet{Sync: 0x47, PID: 0x0234, AFC: 3, CC: 5, AF: &ref.AF{Len: 40, RA: true, PCR: hexp([]byte{0x12, 0x34, 0x56, 0x78, 0x7E, 0x11}), TPD: hexp([]byte("bystander"))}, Payload: bytes.Repeat([]byte{0xBB}, 143)}
@@ -593,8 +658,17 @@ func checkC03(c CaseC03, x *hx.Ctx) *hx.Failure {
 	unsetClock := map[string]bool{}
 	for i, o := range c.Ops {
 		hist = append(hist, o.String())
-		before := p
-		na, wantErr, undefined, sizeChange := c03Apply(m.AF, o)
+		before := *pp
+		mo := o // the step as the model sees it
+		if o.Kind == "tpdStraddle" || o.Kind == "extStraddle" {
+			start, n := c03FieldStart(m.AF, o.Kind == "extStraddle")
+			if start < 0 {
+				continue
+			}
+			// the argument's value is what the buffer holds when the call is made
+			mo.Kind, mo.Data = strings.TrimSuffix(o.Kind, "Straddle"), clone(arena[start+int(o.V&0xFF)%(n+1):188+1+int(o.V>>8)%40])
+		}
+		na, wantErr, undefined, sizeChange := c03Apply(m.AF, mo)
 		// classification for labels
 		switch o.Kind {
 		case "hasPCR", "hasOPCR", "hasSplice", "hasTPD", "hasExt":
@@ -605,7 +679,10 @@ func checkC03(c CaseC03, x *hx.Ctx) *hx.Failure {
 		if !o.B && ((o.Kind == "hasTPD" && m.AF.TPD != nil && len(*m.AF.TPD) > 0) || (o.Kind == "hasExt" && m.AF.Ext != nil && len(*m.AF.Ext) > 0)) {
 			nRemoveNonEmpty++
 		}
-		err := c03Call(&p, o, m.AF)
+		err := c03Call(pp, o, m.AF)
+		if !bytes.Equal(arena[188:], tailKeep) {
+			return hx.Failf("writes-behind-packet", "step %d %s: the call wrote to the caller's buffer behind the packet", i, o)
+		}
 		where := fmt.Sprintf("step %d %s after %v (af_len %d, content before %d)", i, o, hist[:i], m.AF.Len, m.AF.Content())
 		if by != packet.Packet(byBytes) {
 			return hx.Failf("bystander-packet-changed", "%s: another packet (with its own adaptation field) changed", where)
@@ -616,10 +693,10 @@ func checkC03(c CaseC03, x *hx.Ctx) *hx.Failure {
 		if err != nil && len(err.Error()) > 16 && err.Error()[:16] == "harness-observed" {
 			return hx.Failf("copyaf-mutates-source", "%s: %v", where, err)
 		}
-		if o.Kind == "copyAF" && !wantErr && c03SourceEmpty(o) && (err != nil || p == before) {
+		if o.Kind == "copyAF" && !wantErr && c03SourceEmpty(o) && (err != nil || *p == before) {
 			// copying an EMPTY adaptation field (no flags byte at all): "nothing is set afterwards" is one reading,
 			// a refusal or leaving the destination as it is are others - as long as nothing else changes
-			if p != before {
+			if *p != before {
 				return hx.Failf("error-changes-packet-copyAF", "%s: copying an empty adaptation field returned error %q but changed the packet", where, err)
 			}
 			nRefused++
@@ -633,7 +710,7 @@ func checkC03(c CaseC03, x *hx.Ctx) *hx.Failure {
 			if err == nil {
 				return hx.Failf("no-error-"+o.Kind, "%s: the call cannot be honoured (absent field or content would exceed af_len) but returned no error\n before %x\n after  %x", where, before[:], p[:])
 			}
-			if p != before {
+			if *p != before {
 				return hx.Failf("error-changes-packet-"+o.Kind, "%s: returned error %q but changed the packet\n before %x\n after  %x", where, err, before[:], p[:])
 			}
 			continue
@@ -705,7 +782,7 @@ func checkC03(c CaseC03, x *hx.Ctx) *hx.Failure {
 			}
 		}
 		eb := m.MustBytes()
-		if [188]byte(p) != eb {
+		if [188]byte(*p) != eb {
 			j := 0
 			for p[j] == eb[j] {
 				j++
@@ -720,7 +797,7 @@ func checkC03(c CaseC03, x *hx.Ctx) *hx.Failure {
 			}
 			return hx.Failf("bytes-"+o.Kind, "%s: packet differs from the ISO serialisation of the values set so far at byte %d (%s): got %02x want %02x\n before %x\n got    %x\n want   %x", where, j, part, p[j], eb[j], before[:], p[:], eb[:])
 		}
-		if f := c03Getters(&p, m, tol, &knownGetter); f != nil {
+		if f := c03Getters(p, m, tol, &knownGetter); f != nil {
 			f.Msg = where + ": " + f.Msg
 			return f
 		}
